@@ -514,7 +514,7 @@ func c14Gen(r *vf.Rand) c14Case {
 			d.Exec = append([]c14Step{c14GenStep(r, 0, 0)}, d.Exec...)
 		}
 
-		if r.Bool() {
+		if r.Intn(100) < 40 {
 			d.Via = "yaml"
 		}
 
